@@ -236,14 +236,18 @@ def generate(rng, tier, n):
     nbig = 0 if n < 1000 else (2 if tier == "quick" else 12)
     nlarge = n // 400 if tier == "quick" else n // 200
     nchurn = n // 160 if tier == "quick" else n // 250
-    # the expensive cases first, so that their coqc jobs overlap with all the others
+    # the 200 KB cases first so that their coqc jobs overlap with all the others; then a block of small cases (a
+    # defect that shows on small histories is then reported and shrunk from those, cheaply); then the long ones
+    nsmall = n - nbig - nlarge - nchurn
     for i in range(nbig):
         yield _gen_big(rng, tier, i)
+    for i in range(min(300, nsmall)):
+        yield _gen_q(rng, tier) if rng.random() < 0.78 else _gen_b(rng, tier)
     for i in range(nlarge):
         yield _gen_large(rng, tier)
     for i in range(nchurn):
         yield _gen_churn(rng, tier)
-    for i in range(n - nbig - nlarge - nchurn):
+    for i in range(nsmall - min(300, nsmall)):
         yield _gen_q(rng, tier) if rng.random() < 0.78 else _gen_b(rng, tier)
 
 
